@@ -26,6 +26,67 @@ def first_diff(a, b):
     return -1
 
 
+def gen_io_program(rnd):
+    """128K program around the state a snapshot has to carry besides registers and RAM: AY register select / write / read
+    back (incl. select values >= 16, which deselect), 0x7FFD paging with ROM and lock bits, border/0xFE, stores into the
+    paged bank, interleaved with EI/HALT/IM 2 fragments.  Everything read from a port is stored to memory, so that it
+    shows in the final snapshot."""
+    regs = [0] * 30
+    R = simdrv
+    for i in (R.A, R.F, R.B, R.C, R.D, R.E, R.H, R.L, 8, 9, 10, 11, R.I, R.R, 16, 17, 18, 19, 20, 21, 22, 23):
+        regs[i] = simdrv.r8(rnd)
+    regs[R.SP] = rnd.choice((0xBF00, 0x8F00, 0xFFF0, 0xC010))
+    regs[R.IM] = rnd.choice((1, 1, 2))
+    regs[R.I] = rnd.choice((0x80, 0x85, 0xA0))
+    regs[R.IFF] = rnd.randrange(2)
+    start = 0x8000
+    code = []
+    cellp = [0x9100]
+
+    def cell():
+        cellp[0] += 1
+        return cellp[0]
+
+    n = rnd.choice((20, 40, 80))
+    while len(code) < n:
+        k = rnd.randrange(12)
+        if k == 0:      # select an AY register (or none)
+            v = rnd.choice((0, 1, 7, 8, 13, 14, 15, 16, 17, 0x1F, 0x20, 0x8E, 0xFF, rnd.randrange(256)))
+            code += [0x01, 0xFD, 0xFF, 0x3E, v, 0xED, 0x79]
+        elif k == 1:    # write the selected AY register
+            code += [0x01, 0xFD, 0xBF, 0x3E, rnd.randrange(256), 0xED, 0x79]
+        elif k == 2:    # read the selected AY register and store it
+            a = cell()
+            code += [0x01, 0xFD, 0xFF, 0xED, 0x78, 0x32, a & 255, a >> 8]
+        elif k == 3:    # page
+            v = rnd.choice((0, 1, 3, 4, 6, 7)) | rnd.choice((0, 0x10)) | (0x20 if rnd.random() < 0.08 else 0)
+            code += [0x01, 0xFD, 0x7F, 0x3E, v, 0xED, 0x79]
+        elif k == 4:    # store into / load from the paged bank
+            a = rnd.choice((0xC000, 0xC001, 0xFFFF, 0xE123))
+            code += [0x3E, rnd.randrange(256), 0x32, a & 255, a >> 8] if rnd.random() < 0.6 else [0x3A, a & 255, a >> 8, 0x32, 0x00, 0x91]
+        elif k == 5:    # border / speaker / mic
+            code += [0x3E, rnd.randrange(256), 0xD3, 0xFE]
+        elif k == 6:
+            code += [0xFB, 0x76] if rnd.random() < 0.3 else [0xFB, 0x00]
+        elif k == 7:
+            a = cell()
+            code += [0xDB, 0xFE, 0x32, a & 255, a >> 8]      # IN A,(FE) ; store
+        elif k == 8:
+            code += [0x06, rnd.randrange(1, 4), 0x10, 0xFE]
+        elif k == 9:
+            code += [0xF5, 0xC5, 0xE1, 0xD1]
+        elif k == 10:
+            code += [0xED, 0x5F] if rnd.random() < 0.5 else [0xED, 0x57]
+        else:
+            code += [rnd.choice((0x00, 0x3C, 0x27, 0xD9, 0x08))]
+    code += [0xC3, 0x00, 0x80]
+    ov = [[start + i, b] for i, b in enumerate(code)]
+    vt = regs[R.I] * 256 + 255
+    ov += [[vt, 0x00], [vt + 1, 0x90], [0x9000, 0xF5], [0x9001, 0xF1], [0x9002, 0xFB], [0x9003, 0xED], [0x9004, 0x4D]]
+    regs[R.PC] = start
+    return start, ov, regs
+
+
 def make_start(rnd, wd, idx, m128):
     """Write a start snapshot with a generated program using the real write_snapshot."""
     from skoolkit.snapshot import write_snapshot
@@ -37,7 +98,10 @@ def make_start(rnd, wd, idx, m128):
         start, ov, regs = progdrv.gen_program(rnd, kind)
         while start < 0x4000:
             start, ov, regs = progdrv.gen_program(rnd, kind)
-    if rnd.random() < 0.15:
+    if m128 and rnd.random() < 0.6:
+        kind = 'io128'
+        start, ov, regs = gen_io_program(rnd)
+    elif rnd.random() < 0.15:
         # HALT exactly at the last contended address: while halted the next address (uncontended) is fetched
         kind = 'haltedge'
         start = 0x7FFE
@@ -61,7 +125,8 @@ def make_start(rnd, wd, idx, m128):
         banks[5] = ram[:0x4000]
         banks[2] = ram[0x4000:0x8000]
         banks[o7 % 8][:] = ram[0x8000:]
-        state += ['7ffd=%d' % o7, 'fffd=%d' % rnd.randrange(16)] + ['ay[%d]=%d' % (rnd.randrange(16), rnd.randrange(256))]
+        state += ['7ffd=%d' % o7, 'fffd=%d' % rnd.choice((rnd.randrange(16), rnd.randrange(16), 16, 31, 255, 0x8E))]
+        state += ['ay[%d]=%d' % (i, rnd.randrange(256)) for i in rnd.sample(range(16), rnd.randrange(1, 6))]
         ramarg = banks
         machine = '128K'
     else:
@@ -82,7 +147,7 @@ def legs(args):
     os.makedirs(sub, exist_ok=True)
     out = []
     for k in range(n):
-        m128 = rnd.random() < 0.35
+        m128 = rnd.random() < 0.45
         start, t0, kind = make_start(rnd, sub, k, m128)
         total = rnd.choice((6, 12, 25, 60))
         base = []
